@@ -19,14 +19,12 @@ import Influx.Lemmas.EngineWal
 namespace Influx.Props.C02
 open Influx.Model.Engine Influx.Spec.C03 Influx.Spec.C02
 
-/-- NoDeleteInsideSnapshot (as in C03): at every delete, the in-flight snapshot store holds no
-    point of the deleted series/range -/
+/-- the hypothesis of `C02_partial` (`opSafe`, decidable on the history): no delete covers a point
+    of the in-flight / pending snapshot store (F1), and no failed snapshot attempt is retried after
+    further writes (F18) -/
 def safeFrom (s : State) : List Op → Bool
   | [] => true
-  | op :: ops =>
-    (match op with
-     | .delete ss lo hi => decide (SnapClear s ss lo hi)
-     | _ => true) && safeFrom (step s op).1 ops
+  | op :: ops => opSafe s op && safeFrom (step s op).1 ops
 
 /-- every operation of the model except the deliberately wrong non-contiguous compaction -/
 def inScope' : Op → Bool
@@ -146,7 +144,7 @@ theorem step_J {s : State} {st : St} (hj : J s st) (op : Op) (hop : inScope' op 
   | write es =>
     exact ⟨_, J_write hj es _, by simp only [Spec.C02.checkFrom, step, if_true]; rfl⟩
   | delete ss lo hi =>
-    simp only [safeFrom, Bool.and_true, decide_eq_true_eq] at hsafe
+    simp only [safeFrom, opSafe, Bool.and_true, decide_eq_true_eq] at hsafe
     by_cases hb : commitLocked s.phase = true
     · have hstep : step s (.delete ss lo hi) = (s.touch, .blocked) := by simp [step, hb]
       rw [hstep]
@@ -157,9 +155,17 @@ theorem step_J {s : State} {st : St} (hj : J s st) (op : Op) (hop : inScope' op 
       rw [hstep]
       exact ⟨_, J_delete hj hsafe hb' _, by simp only [Spec.C02.checkFrom, if_true]; rfl⟩
   | snapBegin =>
+    simp only [safeFrom, opSafe, Bool.and_true, decide_eq_true_eq] at hsafe
     have hj' : ∀ prev win, J (step s .snapBegin).1 ⟨st.worlds, prev, win⟩ := fun prev win =>
-      hquiet (good_snapBegin hj.good) (fun k t => abs_stepSnapBegin hj.good.inv k t) (lastRec_snapBegin s) prev win
+      hquiet (good_snapBegin hj.good hsafe) (fun k t => abs_stepSnapBegin hj.good.inv k t) (lastRec_snapBegin s) prev win
     by_cases ho : (step s .snapBegin).2 = .ok
+    · exact ⟨_, hj' none _, by simp only [Spec.C02.checkFrom, ho, if_true]; rfl⟩
+    · exact ⟨_, hj' none _, by simp only [Spec.C02.checkFrom, ho, if_false]; rfl⟩
+  | snapFail =>
+    simp only [safeFrom, opSafe, Bool.and_true, decide_eq_true_eq] at hsafe
+    have hj' : ∀ prev win, J (step s .snapFail).1 ⟨st.worlds, prev, win⟩ := fun prev win =>
+      hquiet (good_snapFail hj.good hsafe) (fun k t => abs_stepSnapFail hj.good.inv k t) (lastRec_snapFail s) prev win
+    by_cases ho : (step s .snapFail).2 = .failed
     · exact ⟨_, hj' none _, by simp only [Spec.C02.checkFrom, ho, if_true]; rfl⟩
     · exact ⟨_, hj' none _, by simp only [Spec.C02.checkFrom, ho, if_false]; rfl⟩
   | snapStep =>
